@@ -186,7 +186,74 @@ def lemma_RangeList():
     return {"name": "lemma.RangeList (len, at)", "status": st, "parts": r1["parts"] + r2["parts"], "seconds": r1["seconds"] + r2["seconds"]}
 
 
+# ---------------------------------------------------------------------------
+# TB-ifml: derived facts about HoldAll / HoldUpTo (no induction: both sides are bounded
+# quantifiers, the witnesses of one side instantiate the other) and the sum congruence (induction)
+# ---------------------------------------------------------------------------
+def lemma_HoldAll():
+    from pyvc import iterm as IT
+
+    LF = IT.LIForm
+    l, l2 = z3.Consts("l_ha l2_ha", LF.sort)
+    f = z3.Const("f_ha", IT.IForm)
+    s = z3.Const("s_ha", IT.Asg)
+    n = z3.Int("n_ha")
+    H, hw = IT.HoldAll, IT.haw
+    ex = list(IT.DERIVED)
+    sn = LF.snoc(l, f)
+    cc = LF.concat(l, l2)
+    UW = z3.Function("HoldUpTo!w", LF.sort, IT.Asg, L.Int, L.Int)
+    parts = [
+        ("snoc =>1", [H(sn, s)], H(l, s), [LF.at(sn, hw(l, s))]),
+        ("snoc =>2", [H(sn, s)], IT.hold(f, s), [LF.at(sn, LF.len(l))]),
+        ("snoc <=", [H(l, s), IT.hold(f, s)], H(sn, s), [LF.at(l, hw(sn, s))]),
+        ("nil", [], H(LF.nil, s), []),
+        ("concat =>1", [H(cc, s)], H(l, s), [LF.at(cc, hw(l, s))]),
+        ("concat =>2", [H(cc, s)], H(l2, s), [LF.at(cc, hw(l2, s) + LF.len(l))]),
+        ("concat <=", [H(l, s), H(l2, s)], H(cc, s), [LF.at(l, hw(cc, s)), LF.at(l2, hw(cc, s) - LF.len(l))]),
+        ("upto =>", [n == LF.len(l), IT.HoldUpTo(l, s, n)], H(l, s), [LF.at(l, hw(l, s))]),
+        ("upto <=", [n == LF.len(l), H(l, s)], IT.HoldUpTo(l, s, n), [LF.at(l, UW(l, s, n))]),
+    ]
+    return _prove("lemma.HoldAll (snoc, nil, concat, HoldUpTo.all)", parts, exclude=ex)
+
+
+def lemma_SumCong():
+    """SumIV(tl, s, n) != SumEta(kl, s, n)  ==>  some position k < n has iv(tl[k], s) != asg(s, eta_<kl[k]>).
+    The axiom names the position by a witness function; it is proved in the existential form
+    (forall k < n: equal summands) ==> equal sums, by induction on n with the summand hypothesis
+    instantiated at the last position."""
+    from contracts import c_cinf as CC
+    from pyvc import iterm as IT
+
+    tl = z3.Const("tl_sc", IT.LITerm.sort)
+    kl = z3.Const("kl_sc", LInt.sort)
+    s = z3.Const("s_sc", IT.Asg)
+    n, k = z3.Ints("n_sc k_sc")
+    from pyvc.logic import Forall
+
+    summands = lambda m: Forall([k], [IT.LITerm.at(tl, k)], z3.Implies(z3.And(0 <= k, k < m), IT.iv(IT.LITerm.at(tl, k), s) == IT.asg(s, CC.EtaName(LInt.at(kl, k)))), "sc.summands")
+    claim = lambda m: IT.SumIV(tl, s, m) == CC.SumEta(kl, s, m)
+    return _prove(
+        "lemma.SumCong",
+        [
+            ("base n<=0", [n <= 0], claim(n), []),
+            ("step", [n >= 0, summands(n + 1), claim(n)], claim(n + 1), [IT.LITerm.at(tl, n)]),
+        ],
+        exclude=["lemma.SumCong"],
+    )
+
+
+def lemma_mem_at():
+    mem, memw = L.mem_theory(L.Int)
+    l = z3.Const("l_mat", LInt.sort)
+    i = z3.Int("i_mat")
+    return _prove("mem.at.Int", [("at", [0 <= i, i < LInt.len(l)], mem(l, LInt.at(l, i)), [])])
+
+
 LEMMAS = {
+    "HoldAll": lemma_HoldAll,
+    "SumCong": lemma_SumCong,
+    "mem.at.Int": lemma_mem_at,
     "RangeList": lemma_RangeList,
     "L2a": lemma_L2a,
     "lenGLs": lambda: lemma_lenGLs(PS, LCnd, LLCnd, (), ""),
